@@ -53,9 +53,11 @@ func flagsWalk(r *Result, m *spec.Msg, attrs map[string]tfsdk.Attribute, parentC
 		bad := func(kind, format string, args ...interface{}) {
 			r.violate(kind, ch, fmt.Sprintf("attribute %s (field %s): ", p, a.Path)+fmt.Sprintf(format, args...), w(p))
 		}
+		// (a custom attribute is what the GenSchema hook returned: the harness hook passes flags,
+		// validators, plan modifiers and description through unchanged and only replaces the type,
+		// so the configuration must show on it like on any other attribute; C17 judges the hook call itself)
 		if a.Kind == spec.Custom {
-			// the hook returned this attribute; C17 judges what the hook was given
-			continue
+			r.outcome("custom-attribute")
 		}
 		if sa.Required == sa.Optional {
 			bad("required-xor-optional", "Required=%v Optional=%v", sa.Required, sa.Optional)
